@@ -46,8 +46,8 @@ def _skip_max(ex, st):
     c = z3.Const(fresh_name('c'), Cell)
     st.pc.append(z3.ForAll([l, c], Implies(l > m, Not(marked.member(l, c)))))
     c2 = z3.Const(fresh_name('c'), Cell)
-    st.pc.append(z3.Exists([c2], marked.member(m, c2)))      # the maximum is attained (max() of an empty sequence raises)
-    st.pc.append(m >= 0)
+    # max(<levels with marks>, default=-1): attained if anything is marked, -1 otherwise
+    st.pc.append(Or(m == -1, And(m >= 0, z3.Exists([c2], marked.member(m, c2)))))
 
 
 def _ensure_levels(ex, st):
@@ -783,3 +783,91 @@ hspace_ensure_levels = Contract(
 )
 
 CONTRACTS = CONTRACTS + [hmesh_add_level, hspace_add_level, hspace_ensure_levels]
+
+
+# ---- the basis flag: `truncate=None` means "the basis of the space", an explicit flag is used as given -------------------------------
+def basis_flag_obligations():
+    """Every function of pyiga/hierarchical.py with a parameter `truncate=None` (represent_fine, virtual_hierarchy_prolongators,
+    coeffs_to_levelwise_funcs, grid_eval, HSplineFunc.__init__): the first statement that mentions `truncate` is
+
+        if <test over truncate>:  truncate = <...>.truncate
+
+    and the test, evaluated as Python on truncate in {None, False, True}, is true for None only -- so that HB coefficients passed with
+    an explicit truncate=False are not silently read as THB coefficients on a space built with truncate=True (and vice versa).
+    Three-valued: a test that mentions anything but `truncate` and constants, or another statement shape, is undecided here."""
+    import ast
+    from pyvc import frontend
+    from pyvc.symexec import Obligation
+    src = frontend.load(F)
+    fns = []
+    for c in src.classes():
+        for st in c.body:
+            if isinstance(st, ast.FunctionDef):
+                fns.append((c.name + '.' + st.name, st))
+    obs = []
+    for qn, fn in fns:
+        a = fn.args
+        names = [x.arg for x in a.args]
+        if 'truncate' not in names:
+            continue
+        k = names.index('truncate') - (len(names) - len(a.defaults))
+        if k < 0 or not (isinstance(a.defaults[k], ast.Constant) and a.defaults[k].value is None):
+            continue
+        o = Obligation('hierarchical:%s:basis-flag-default' % qn, 'rule', fn.lineno, [], None,
+                       '%s(truncate=None): None is replaced by the truncate attribute of the space, an explicit False/True is kept' % qn, src=F)
+        first = None
+        for st in fn.body:
+            if any(isinstance(n, ast.Name) and n.id == 'truncate' for n in ast.walk(st)):
+                first = st
+                break
+        status, why = 'unknown', 'statement shape not recognised'
+        if isinstance(first, ast.If) and not first.orelse and len(first.body) == 1 and isinstance(first.body[0], ast.Assign) \
+                and len(first.body[0].targets) == 1 and isinstance(first.body[0].targets[0], ast.Name) and first.body[0].targets[0].id == 'truncate':
+            test, val = first.test, first.body[0].value
+            free = {n.id for n in ast.walk(test) if isinstance(n, ast.Name)}
+            if free <= {'truncate'} and not any(isinstance(n, (ast.Call, ast.Attribute, ast.Subscript)) for n in ast.walk(test)):
+                code = compile(ast.Expression(test), '<test>', 'eval')
+                tv = {v: bool(eval(code, {'__builtins__': {}}, {'truncate': v})) for v in (None, False, True)}
+                if isinstance(val, ast.Attribute) and val.attr == 'truncate':
+                    if tv == {None: True, False: False, True: False}:
+                        status, why = 'proved', ''
+                    else:
+                        status = 'refuted'
+                        why = 'line %d: `if %s:` replaces the flag for truncate in %s (must be: None only)' % (
+                            first.lineno, ast.unparse(test), sorted((repr(v) for v, t in tv.items() if t)))
+                elif isinstance(val, ast.Constant) and tv.get(None):
+                    status, why = 'refuted', 'line %d: None is replaced by the constant %r, not by the flag of the space' % (first.lineno, val.value)
+        elif first is None:
+            status, why = 'refuted', 'the parameter is never read'
+        o.status, o.backend, o.time = status, 'ast-frame-analysis', 0.0
+        if status != 'proved':
+            o.goal = why
+        obs.append(o)
+    if len(obs) < 4:
+        raise KeyError('fewer than 4 functions with a truncate=None parameter found in %s' % F)
+    return obs, None
+
+
+# ---- the one statement the refine contracts replace by its meaning -------------------------------------------------------------------
+def max_level_obligations():
+    """HMesh.refine and HSpace.refine start with `max_lv = max(<levels of `marked` with a non-empty cell list>, default=-1)`; the contracts
+    replace that statement by its meaning (a level above which nothing is marked, attained unless nothing is marked at all).  Obligation:
+    the statement is literally that expression.  Three-valued: any other text is undecided here (bounded tier)."""
+    import ast
+    from pyvc import frontend
+    from pyvc.symexec import Obligation
+    src = frontend.load(F)
+    want = ast.unparse(ast.parse('max_lv = max((lv for (lv, cells) in marked.items() if cells), default=-1)'))
+    obs = []
+    for cname in ('HMesh', 'HSpace'):
+        cls = [c for c in src.classes() if c.name == cname][0]
+        fn = [st for st in cls.body if isinstance(st, ast.FunctionDef) and st.name == 'refine'][0]
+        stmts = [st for st in fn.body if isinstance(st, ast.Assign) and isinstance(st.targets[0], ast.Name) and st.targets[0].id == 'max_lv']
+        o = Obligation('hierarchical:%s.refine:max-marked-level' % cname, 'rule', fn.lineno, [], None,
+                       '%s.refine: max_lv is the largest level with a non-empty list of marked cells, -1 if nothing is marked' % cname, src=F)
+        ok = len(stmts) == 1 and ast.unparse(stmts[0]) == want
+        o.status, o.backend, o.time = ('proved' if ok else 'unknown'), 'ast-frame-analysis', 0.0
+        if not ok:
+            o.goal = 'statement is %r' % ([ast.unparse(s_) for s_ in stmts],)
+        obs.append(o)
+    return obs, None
